@@ -1246,6 +1246,14 @@ theorem prepAliasT_sep (s : St) (t r : Dense) (ht : sharesMemory t r = false) :
     prepAliasT s t (some r) = .ok (s, t) := by
   simp [prepAliasT, operandFor, ht, pure, Except.pure]
 
+/-- the operand is handed on as it is when the destination does not share memory with it, or addresses exactly its
+    cells in its sequence (in-place loop) -/
+theorem prepAliasT_keep (s : St) (t r : Dense) (h : sharesMemory t r = false ∨ sameAccess t r = true) :
+    prepAliasT s t (some r) = .ok (s, t) := by
+  rcases h with h | h
+  · exact prepAliasT_sep s t r h
+  · cases hs : sharesMemory t r <;> simp [prepAliasT, operandFor, hs, h, pure, Except.pure]
+
 theorem itStream_nomask (st : St) (t : Dense) (hm : t.mask = none) :
     t.itStream st = .ok (t.offsets.map (·, true)) := by
   unfold Dense.itStream
@@ -2189,7 +2197,7 @@ theorem engUnary_raw_safe (st : St) (g : UnF) (tc kt : List String) (strict : Bo
       let s ← kUn s c.win g
       pure ⟨s, none, .fresh c⟩) := by
   unfold engUnary
-  simp only [hta, hk, hfo_none, hia, bind, Except.bind, pure, Except.pure, Bool.not_true, Bool.false_eq_true,
+  simp only [hta, hk, hfo_none, prepAliasT_none, hia, bind, Except.bind, pure, Except.pure, Bool.not_true, Bool.false_eq_true,
     if_false, Bool.or_false, Bool.not_false, if_true]
 
 theorem engUnary_raw_unsafe (st : St) (g : UnF) (tc kt : List String) (strict : Bool) (a : Dense)
@@ -2198,18 +2206,19 @@ theorem engUnary_raw_unsafe (st : St) (g : UnF) (tc kt : List String) (strict : 
       let s ← kUn st a.win g
       pure ⟨s, none, .a⟩) := by
   unfold engUnary
-  simp only [hta, hk, hfo_none, hia, bind, Except.bind, pure, Except.pure, Bool.not_true, Bool.false_eq_true,
+  simp only [hta, hk, hfo_none, prepAliasT_none, hia, bind, Except.bind, pure, Except.pure, Bool.not_true, Bool.false_eq_true,
     if_false, Bool.or_false, Bool.not_false, if_true]
 
 theorem engUnary_raw_reuse (st : St) (g : UnF) (tc kt : List String) (strict : Bool) (a r : Dense)
     (hta : tc.contains a.dt = true) (hk : kt.contains a.dt = true) (hia : a.requiresIterator = false)
-    (hir : r.requiresIterator = false) (hr : ReuseFits r a.shape a.dt a.ap.o.col) :
+    (hir : r.requiresIterator = false) (hr : ReuseFits r a.shape a.dt a.ap.o.col)
+    (hal : sharesMemory a r = false ∨ sameAccess a r = true) :
     engUnary st g tc kt strict a { reuse := some r } = (do
       let s ← Dense.rawCopy st r.win a.win
       let s ← kUn s r.win g
       pure ⟨s, some r, .reuse⟩) := by
   unfold engUnary
-  simp only [hta, hk, hfo_reuse _ _ _ _ _ _ hr, hia, hir, hr.sameOrd, bind, Except.bind, pure, Except.pure, Bool.not_true,
+  simp only [hta, hk, hfo_reuse _ _ _ _ _ _ hr, prepAliasT_keep _ _ _ hal, hia, hir, hr.sameOrd, bind, Except.bind, pure, Except.pure, Bool.not_true,
     Bool.false_eq_true, if_false, Bool.or_false, Bool.not_false, if_true]
 
 theorem engUnary_refuses' (st : St) (g : UnF) (tc kt : List String) (strict : Bool) (a : Dense) (o : Opts)
@@ -2251,11 +2260,11 @@ theorem engUnary_unsafe' (st : St) (g : UnF) (tc kt : List String) (strict : Boo
 theorem engUnary_reuse' (st : St) (g : UnF) (tc kt : List String) (strict : Bool) (a r : Dense)
     (hta : tc.contains a.dt = true) (hk : kt.contains a.dt = true) (hia : a.requiresIterator = false)
     (hir : r.requiresIterator = false) (hr : ReuseFits r a.shape a.dt a.ap.o.col)
-    (hlen : r.win.len = a.win.len)
+    (hlen : r.win.len = a.win.len) (hal : sharesMemory a r = false ∨ sameAccess a r = true)
     (hA : InBuf st a.win.buf a.win.off a.win.len) (hR : InBuf st r.win.buf r.win.off r.win.len) :
     ∃ st', engUnary st g tc kt strict a { reuse := some r } = .ok ⟨st', some r, .reuse⟩ ∧
       Writes st st' r.win.buf r.win.off r.win.len (fun i => g (cellD st a.win.buf (a.win.off + i))) := by
-  rw [engUnary_raw_reuse st g tc kt strict a r hta hk hia hir hr]
+  rw [engUnary_raw_reuse st g tc kt strict a r hta hk hia hir hr hal]
   have hmin : min r.win.len a.win.len = r.win.len := by rw [hlen, Nat.min_self]
   obtain ⟨s1, h1, w1⟩ := rawCopy_total st r.win a.win (by rw [hmin, hlen]; exact hA.has) (by rw [hmin]; exact hR.has)
   rw [hmin] at w1
@@ -2295,8 +2304,10 @@ theorem engMap_safe' (st : St) (g : UnF) (mt : List String) (a : Dense)
   obtain ⟨s2, h2, w2⟩ := kUn_spec s1 (cloneOf st a).win g hHc
   have hic : (cloneOf st a).requiresIterator = false := by rw [cloneOf_requiresIterator st a hm, hia]
   have hfin := mapFin_created a (cloneOf st a) none rfl s2
+  have hsep : prepAliasT s1 a (some (cloneOf st a)) = .ok (s1, a) :=
+    prepAliasT_sep s1 a _ (sharesMemory_of_buf_ne (by simp only [cloneOf]; exact Nat.ne_of_lt hA.lt))
   unfold engMap mapKern
-  simp only [hfo_none, materialize_self' st a hmz, h1, hia, hic, cloneOf_sameOrd, hmt, h2, hfin, bind, Except.bind, pure,
+  simp only [hfo_none, materialize_self' st a hmz, h1, hsep, hia, hic, cloneOf_sameOrd, hmt, h2, hfin, bind, Except.bind, pure,
     Except.pure, Bool.not_true, Bool.false_eq_true, if_false, Bool.or_false, Bool.not_false, if_true]
   simp only [cloneOf] at w2
   refine ⟨s2, _, rfl, w2.mheap.trans hm1, rfl, rfl, rfl, ?_, ?_⟩
@@ -2322,14 +2333,15 @@ theorem mapFin_given (a r : Dense) (hr : ReuseFits r a.shape a.dt a.ap.o.col) (s
 /-- `Map` with a reuse tensor on the raw path: copy of the operand's elements, then the function in place -/
 theorem engMap_raw_reuse (st : St) (g : UnF) (mt : List String) (a r : Dense)
     (hmt : mt.contains a.dt = true) (hia : a.requiresIterator = false) (hir : r.requiresIterator = false)
-    (hr : ReuseFits r a.shape a.dt a.ap.o.col) (hts : totalSize r.shape = totalSize a.shape) :
+    (hr : ReuseFits r a.shape a.dt a.ap.o.col) (hts : totalSize r.shape = totalSize a.shape)
+    (hal : sharesMemory a r = false ∨ sameAccess a r = true) :
     engMap st g mt a { reuse := some r } = (do
       let s ← Dense.rawCopy st r.win a.win
       let s ← kUn s r.win g
       mapFin a (some r) (some r) false s) := by
   have hts' : (totalSize a.shape != totalSize r.shape) = false := by simp [hts]
   unfold engMap mapKern
-  simp only [hfo_reuse _ _ _ _ _ _ hr, hts', hia, hir, hr.sameOrd, hmt, bind, Except.bind, pure, Except.pure,
+  simp only [hfo_reuse _ _ _ _ _ _ hr, prepAliasT_keep _ _ _ hal, hts', hia, hir, hr.sameOrd, hmt, bind, Except.bind, pure, Except.pure,
     Bool.not_true, Bool.false_eq_true, if_false, Bool.or_false, Bool.not_false, if_true]
 
 /-- `Map` with a reuse tensor (finding F34, repaired): the reuse tensor receives `g a[i]`; nothing outside its window
@@ -2337,11 +2349,11 @@ theorem engMap_raw_reuse (st : St) (g : UnF) (mt : List String) (a r : Dense)
 theorem engMap_reuse' (st : St) (g : UnF) (mt : List String) (a r : Dense)
     (hmt : mt.contains a.dt = true) (hia : a.requiresIterator = false) (hir : r.requiresIterator = false)
     (hr : ReuseFits r a.shape a.dt a.ap.o.col) (hts : totalSize r.shape = totalSize a.shape)
-    (hlen : r.win.len = a.win.len)
+    (hlen : r.win.len = a.win.len) (hal : sharesMemory a r = false ∨ sameAccess a r = true)
     (hA : InBuf st a.win.buf a.win.off a.win.len) (hR : InBuf st r.win.buf r.win.off r.win.len) :
     ∃ st' r', engMap st g mt a { reuse := some r } = .ok ⟨st', some r', .reuse⟩ ∧ r'.win = r.win ∧
       Writes st st' r.win.buf r.win.off r.win.len (fun i => g (cellD st a.win.buf (a.win.off + i))) := by
-  rw [engMap_raw_reuse st g mt a r hmt hia hir hr hts]
+  rw [engMap_raw_reuse st g mt a r hmt hia hir hr hts hal]
   have hmin : min r.win.len a.win.len = r.win.len := by rw [hlen, Nat.min_self]
   obtain ⟨s1, h1, w1⟩ := rawCopy_total st r.win a.win (by rw [hmin, hlen]; exact hA.has) (by rw [hmin]; exact hR.has)
   rw [hmin] at w1
@@ -2358,7 +2370,8 @@ theorem engMap_reuse' (st : St) (g : UnF) (mt : List String) (a r : Dense)
 theorem engMap_raw_incr (st : St) (g : UnF) (mt : List String) (a r : Dense)
     (hmt : mt.contains a.dt = true) (hnb : (a.dt == "b") = false)
     (hia : a.requiresIterator = false) (hir : r.requiresIterator = false)
-    (hr : ReuseFits r a.shape a.dt a.ap.o.col) (hts : totalSize r.shape = totalSize a.shape) :
+    (hr : ReuseFits r a.shape a.dt a.ap.o.col) (hts : totalSize r.shape = totalSize a.shape)
+    (hal : sharesMemory a r = false ∨ sameAccess a r = true) :
     engMap st g mt a { incr := some r } = (do
       let (s, c) ← a.clone st
       let s ← kUn s c.win g
@@ -2366,7 +2379,7 @@ theorem engMap_raw_incr (st : St) (g : UnF) (mt : List String) (a r : Dense)
       mapFin a (some r) (some r) false s) := by
   have hts' : (totalSize a.shape != totalSize r.shape) = false := by simp [hts]
   unfold engMap mapKern
-  simp only [hfo_incr _ _ _ _ _ _ hr, hts', hia, hir, hr.sameOrd, hmt, hnb, bind, Except.bind, pure, Except.pure,
+  simp only [hfo_incr _ _ _ _ _ _ hr, prepAliasT_keep _ _ _ hal, hts', hia, hir, hr.sameOrd, hmt, hnb, bind, Except.bind, pure, Except.pure,
     Bool.not_true, Bool.false_eq_true, if_false, Bool.or_false, Bool.not_false, if_true]
 
 /-- `Map` with an increment tensor (finding F34, repaired): `r[i] += g a[i]`; the operand and every other existing cell
@@ -2375,7 +2388,7 @@ theorem engMap_incr' (st : St) (g : UnF) (mt : List String) (a r : Dense)
     (hmt : mt.contains a.dt = true) (hnb : (a.dt == "b") = false)
     (hia : a.requiresIterator = false) (hir : r.requiresIterator = false)
     (hr : ReuseFits r a.shape a.dt a.ap.o.col) (hts : totalSize r.shape = totalSize a.shape)
-    (hlen : r.win.len = a.win.len) (hm : a.mask = none)
+    (hlen : r.win.len = a.win.len) (hm : a.mask = none) (hal : sharesMemory a r = false ∨ sameAccess a r = true)
     (hA : InBuf st a.win.buf a.win.off a.win.len) (hR : InBuf st r.win.buf r.win.off r.win.len) :
     ∃ st' r', engMap st g mt a { incr := some r } = .ok ⟨st', some r', .reuse⟩ ∧ r'.win = r.win ∧
       st'.mheap = st.mheap ∧
@@ -2383,7 +2396,7 @@ theorem engMap_incr' (st : St) (g : UnF) (mt : List String) (a r : Dense)
         some (.app2 "add" (cellD st r.win.buf (r.win.off + i)) (g (cellD st a.win.buf (a.win.off + i))))) ∧
       (∀ b' k, b' < st.heap.size → (b' ≠ r.win.buf ∨ k < r.win.off ∨ r.win.off + r.win.len ≤ k) →
         cell st' b' k = cell st b' k) := by
-  rw [engMap_raw_incr st g mt a r hmt hnb hia hir hr hts]
+  rw [engMap_raw_incr st g mt a r hmt hnb hia hir hr hts hal]
   obtain ⟨s1, h1, hm1, hs1, hv1, hf1⟩ := clone_spec st a hm hA.lt hA.has
   have hHc : Has s1 st.heap.size 0 a.win.len := by
     intro i hi
@@ -2438,14 +2451,15 @@ theorem hfo_incr_any (st : St) (sh : Shape) (dt : String) (col strict : Bool) (r
     path: the function runs over a clone of the operand, which is then added to the increment along the two iterators -/
 theorem engUnary_incr_mixed_order (st : St) (g : UnF) (tc kt : List String) (strict : Bool) (a r : Dense)
     (hta : tc.contains a.dt = true) (hk : kt.contains a.dt = true) (hord : sameOrd r a = false)
-    (hma : a.mask = none) (hmr : r.mask = none) (hr : IncrFits r a.shape a.dt) :
+    (hma : a.mask = none) (hmr : r.mask = none) (hr : IncrFits r a.shape a.dt)
+    (hal : sharesMemory a r = false ∨ sameAccess a r = true) :
     engUnary st g tc kt strict a { incr := some r } = (do
       let (s, c) ← a.clone st
       let s ← kUnIter s c.win g (a.offsets.map (·, true))
       let s ← eOpIter s r.win c.win (fun x y => .app2 "add" x y) (r.offsets.map (·, true)) (a.offsets.map (·, true))
       pure ⟨s, some r, .reuse⟩) := by
   unfold engUnary
-  simp only [hta, hk, hfo_incr_any _ _ _ _ _ _ hr, hord, itStream_nomask _ _ hma, itStream_nomask _ _ hmr,
+  simp only [hta, hk, hfo_incr_any _ _ _ _ _ _ hr, prepAliasT_keep _ _ _ hal, hord, itStream_nomask _ _ hma, itStream_nomask _ _ hmr,
     bind, Except.bind, pure, Except.pure, Bool.not_true, Bool.false_eq_true, if_false, Bool.or_false, Bool.not_false,
     if_true, Bool.or_true]
 
@@ -2457,14 +2471,14 @@ theorem engUnary_incr_mixed_order' (st : St) (g : UnF) (tc kt : List String) (st
     (hma : a.mask = none) (hmr : r.mask = none) (hr : IncrFits r a.shape a.dt)
     (hla : a.win.len ≠ 1) (hlr : r.win.len ≠ 1)
     (hor : ∀ i ∈ r.offsets, 0 ≤ i ∧ i < (r.win.len : Int)) (hoa : ∀ j ∈ a.offsets, 0 ≤ j ∧ j < (a.win.len : Int))
-    (hndr : r.offsets.Nodup) (hnda : a.offsets.Nodup)
+    (hndr : r.offsets.Nodup) (hnda : a.offsets.Nodup) (hal : sharesMemory a r = false ∨ sameAccess a r = true)
     (hA : InBuf st a.win.buf a.win.off a.win.len) (hR : InBuf st r.win.buf r.win.off r.win.len) :
     ∃ st', engUnary st g tc kt strict a { incr := some r } = .ok ⟨st', some r, .reuse⟩ ∧ st'.mheap = st.mheap ∧
       (∀ (k : Nat) m j, r.offsets[k]? = some m → a.offsets[k]? = some j →
         cell st' r.win.buf (r.win.off + m.toNat) =
           some (.app2 "add" (cellD st r.win.buf (r.win.off + m.toNat)) (g (cellD st a.win.buf (a.win.off + j.toNat))))) ∧
       (∀ b' k', b' < st.heap.size → b' ≠ r.win.buf → cell st' b' k' = cell st b' k') := by
-  rw [engUnary_incr_mixed_order st g tc kt strict a r hta hk hord hma hmr hr]
+  rw [engUnary_incr_mixed_order st g tc kt strict a r hta hk hord hma hmr hr hal]
   obtain ⟨s1, h1, hm1, hs1, hv1, hf1⟩ := clone_spec st a hma hA.lt hA.has
   have hHc : Has s1 st.heap.size 0 a.win.len := by
     intro i hi
